@@ -48,10 +48,23 @@ func VerifC14_O_success_postconditions() {
 		t.OutputChecks = append(t.OutputChecks, oc)
 	}
 	mode := []config.LoadOutputsMode{config.LoadOutputsAll, config.LoadOutputsMinimal}[sym.Choice("mode", 2)]
-	p := w.newProcess(true, mode, t)
+	// the postconditions hold on every route through the executor: cached, no-cache tag, cache disabled
+	route := sym.Choice("route", 3)
+	if route == 1 {
+		t.Tags = []string{model.TagNoCache}
+	}
+	p := w.newProcess(route != 2, mode, t)
 	res, err := p.run(w.ctx, t)
 	shouldSucceed := !cmdFails && producesOutput && !anyCheckFails
 	sym.Assert((err == nil) == shouldSucceed, "C14.O1.success-iff-exit0-outputs-checks")
+	if route != 0 {
+		// forced routes are covered by C13; here only the success criterion matters
+		if err != nil {
+			sym.Assert(!cacheEntryExists(p, t.ChangeHash), "C05.N1.failed-target-leaves-no-cache-entry")
+		}
+		sym.Reach("C14.O.forced-route")
+		return
+	}
 	sym.Assert(cacheEntryExists(p, t.ChangeHash) == shouldSucceed, "C14.O1.cached-iff-success")
 	sym.Assert(ran("build-t") == 1, "C14.O1.command-ran-once-on-empty-cache")
 	if err == nil {
@@ -105,4 +118,37 @@ func VerifC14_O_timeout() {
 		sym.Assert(ran("build-t") == 0, "C14.O4.cancelled-context-starts-no-command")
 	}
 	sym.Reach("C14.O.timeout")
+}
+
+// O3b: checks are evaluated after the execution, whatever they said before it: a command that
+// destroys the checked condition fails the build and is not cached
+func VerifC14_O_command_breaks_condition() {
+	w := newWorld()
+	extState["service"] = true // the condition holds before the build: the pre-check passes
+	breaks := flag("command_breaks_condition")
+	hasEntry := flag("older_state_cached")
+	cmdModel["deploy-v1"] = &cmdBehaviour{writes: map[string]string{"p/out.txt": "v1"}}
+	cmdModel["deploy-v2"] = &cmdBehaviour{writes: map[string]string{"p/out.txt": "v2"}}
+	if breaks {
+		cmdModel["deploy-v2"].unsets = []string{"service"}
+	}
+	mk := func(cmd string) *model.Target {
+		t := fileTarget("t", cmd, "out.txt")
+		t.OutputChecks = []model.OutputCheck{{Command: "check:service"}}
+		return t
+	}
+	if hasEntry {
+		t0 := mk("deploy-v1")
+		p0 := w.newProcess(true, config.LoadOutputsAll, t0)
+		_, err0 := p0.run(w.ctx, t0)
+		sym.Assert(err0 == nil, "C14.setup.older-state-built")
+	}
+	// the target is edited (cache miss) while the pre-check still passes
+	t := mk("deploy-v2")
+	p := w.newProcess(true, modeOf(sym.Choice("mode", 2)), t)
+	_, err := p.run(w.ctx, t)
+	sym.Assert(ran("deploy-v2") == 1, "C14.O3.edited-target-executes")
+	sym.Assert((err == nil) == !breaks, "C14.O3.checks-are-evaluated-after-execution")
+	sym.Assert(cacheEntryExists(p, t.ChangeHash) == !breaks, "C14.O3.broken-postcondition-is-not-cached")
+	sym.Reach("C14.O.breaks")
 }
